@@ -13,6 +13,8 @@ def _lazy(mod, name):
 
 WORKLOADS = {
     "c04": _lazy("crop", "run_c04"),
+    "c08": _lazy("crop", "run_c08"),
+    "c09": _lazy("crop", "run_c09"),
 }
 
 REAL_VS_STUB = {
@@ -31,7 +33,7 @@ UNDER_CONSTRUCTION = "simulation target (see DESIGN.md section 3); check not bui
 
 NOT_APPLICABLE = {
     "C01": UNDER_CONSTRUCTION, "C05": UNDER_CONSTRUCTION, "C06": UNDER_CONSTRUCTION,
-    "C08": UNDER_CONSTRUCTION, "C09": UNDER_CONSTRUCTION, "C10": UNDER_CONSTRUCTION,
+ "C10": UNDER_CONSTRUCTION,
     "C11": UNDER_CONSTRUCTION, "C12": UNDER_CONSTRUCTION, "C15": UNDER_CONSTRUCTION,
     "C16": UNDER_CONSTRUCTION,
     "C02": "pure function of (cases, combos, fn): enumeration and placeholder shape contain no schedule, "
@@ -68,6 +70,49 @@ PROPS = {
                     "harness's own reference. non-trivial = more than one batch and at least one "
                     "grow operation; distinct = distinct (N, batches, batching, shuffle, api, kind, "
                     "grow-op sequence).",
+        },
+    },
+    "C08": {
+        "workload": "c08", "level": "exploration",
+        "quick": 5000, "thorough": 100000,
+        "technique": "deterministic simulation: seeded operation histories (sow, re-sow, grows, failing function, "
+                     "external deletion/corruption, check_bad, reload) against a finished-set reference model, "
+                     "progress queried after every step by a fresh simulated process and the kept object",
+        "level_text": "Seeded exploration of operation histories up to length 12 on crops of 1-8 batches; after every "
+                      "operation all four progress queries and str(crop) are compared with a model that marks a batch "
+                      "finished iff a grow ran all of its settings to a normal return; each grow's directory diff "
+                      "must be exactly the completed batches' result files.",
+        "level_note": "Trusts: the call log of the harness's swept function as ground truth for 'a grow of the batch "
+                      "completed'; batch membership read from the sown batch files; external corruption is always "
+                      "followed by check_bad.",
+        "evidence": {
+            "rule": "each run draws a sweep and batching (1-8 batches) and then up to 12 operations from {grow one / "
+                    "subset / missing (optionally num_workers), poison or un-poison a setting, re-sow same arguments "
+                    "(same or new object), delete a result, corrupt a result then check_bad, check_bad on a healthy "
+                    "crop, reload}; progress is queried after every operation. non-trivial = at least 2 batches and 2 "
+                    "operations; distinct = distinct (batches, operation sequence with arguments).",
+        },
+    },
+    "C09": {
+        "workload": "c09", "level": "exploration",
+        "quick": 5000, "thorough": 100000,
+        "technique": "deterministic simulation: seeded sow / partial-grow / partial-reap / grow-more / full-reap "
+                     "histories by fresh simulated processes, biased to the uneven-batch boundary; reference-model "
+                     "oracle per position plus byte-level directory comparison",
+        "level_text": "Seeded exploration over sweeps x batching (with and without remainder) x shuffle x result kind x "
+                      "reap form (raw / Dataset / DataFrame) x finished subsets (biased so that the missing set "
+                      "straddles the enlarged/normal batch boundary). Finished positions must be exact, all others "
+                      "missing; the crop directory must be byte-identical after a default partial reap and after a "
+                      "refused reap; the final full reap must equal the reference.",
+        "level_note": "Trusts: batch membership read from the sown batch files; the harness reference. The subset "
+                      "space is sampled, not enumerated (enumeration would be model checking).",
+        "evidence": {
+            "rule": "each run draws sweep, batching (<= 7 batches), shuffle, result kind; grows a non-empty proper "
+                    "subset of batches (half of the runs force the last enlarged and/or first normal batch to be "
+                    "missing), checks refusal without allow_incomplete, partial reap in a tape-chosen form, "
+                    "optionally grows more and reaps partially again, then grows the rest and reaps fully. "
+                    "non-trivial = at least 2 batches; distinct = distinct (N, batch sizes, shuffle, kind, api, "
+                    "grow/partial-reap sequence).",
         },
     },
 }
